@@ -609,6 +609,6 @@ var subHist = runlog.Register(&runlog.Sub[Case]{
 	Run: runCase,
 })
 
-func TestTreeHistories(t *testing.T) { subHist.Check(t, 26000, 2000000) }
+func TestTreeHistories(t *testing.T) { subHist.Check(t, 24000, 2000000) }
 
 func TestReplay(t *testing.T) { runlog.ReplayMain(t) }
